@@ -34,6 +34,7 @@ def universes(tier):
         us.append(("Rxn(A01[:8],2) t=0.5 bs=3", quick, {"threshold": 0.5, "batch_size": 3}, 22))
         corpus = [r for r in pf.corpus_reactions("reaction") if pf.in_domain(r)]
         us.append(("validation corpus", corpus, {"threshold": 0}, 25))
+    us += pf.ids_universes()
     return us
 
 
